@@ -218,6 +218,12 @@ class Fn:
         return None
 
     def iterable(self, it, env):
+        if isinstance(it, ast.Call) and isinstance(it.func, ast.Name) and it.func.id == "reversed" and len(it.args) == 1 and not it.keywords:
+            c, t, g = self.iterable(it.args[0], env)
+            return "(rev %s)" % c, t, g
+        if isinstance(it, ast.Call) and isinstance(it.func, ast.Name) and it.func.id == "range" and len(it.args) == 2 and not it.keywords \
+           and isinstance(it.args[0], ast.Constant) and it.args[0].value == 0:
+            it = ast.copy_location(ast.Call(func=it.func, args=[it.args[1]], keywords=[]), it)
         if isinstance(it, ast.Call) and isinstance(it.func, ast.Name) and it.func.id == "range" and len(it.args) == 1 and not it.keywords:
             c, t, g = self.expr(it.args[0], env)
             if t != Z: bad(it, "range of non-int")
@@ -251,8 +257,11 @@ class Fn:
 
     def guard(self, gs, body):
         for g, o in reversed(gs):
-            body = "(if %s then %s else %s)" % (g, body, o)
+            body = "(if %s then %s else %s)" % (g, body, self.raise_text(o))
         return body
+
+    def raise_text(self, o):
+        return o
 
     def state(self):
         return ["v_" + v for v in self.vars]
@@ -359,10 +368,12 @@ class Fn:
             body = self.block(s.body, benv, None)
             cont = self.block(rest, env, k)
             binds = ("let %s := it_ in " % pat("it_" + n_ for n_ in names)) + "".join("let v_%s := it_%s in " % (n_, n_) for n_ in names)
-            return "(seqo (fold_left (fun o_ it_ => seqo o_ (fun %s => %suncont %s)) %s (Next %s)) (fun %s => %s))" % (
+            return "(seqo (unloop (fold_left (fun o_ it_ => seqo o_ (fun %s => %suncont %s)) %s (Next %s))) (fun %s => %s))" % (
                 pat(self.state()), binds, body, iter_c, tup(self.state()), pat(self.state()), cont)
         if isinstance(s, ast.Continue):
             return "Cont %s" % tup(self.state())
+        if isinstance(s, ast.Break):
+            return "Brk %s" % tup(self.state())
         if isinstance(s, ast.Raise):
             if isinstance(s.exc, ast.Call) and isinstance(s.exc.func, ast.Name) and s.exc.func.id in list(self.tr.exns) + ["ValueError"]:
                 return "Raised (EUser \"%s\"%%string)" % s.exc.func.id
@@ -441,7 +452,7 @@ class Fn:
                         if isinstance(n, ast.Name) and isinstance(n.ctx, ast.Store): env = env | {n.id}
             elif isinstance(s, ast.If):
                 env = self.after_if(s, env)
-            elif isinstance(s, (ast.Return, ast.Raise, ast.Continue)):
+            elif isinstance(s, (ast.Return, ast.Raise, ast.Continue, ast.Break)):
                 return None
         return env
     def after_if(self, s, env):
@@ -748,9 +759,71 @@ class PSFn(ModFn):
         self.params["self"] = OBJ
         for a in args[1:]:
             txt = ast.unparse(a.annotation) if a.annotation is not None else None
-            if txt in ("object", "'PauliString'", "PauliString", "Self"): self.params[a.arg] = OBJ
+            if txt in ("object", "'PauliString'", "PauliString", "Self", "str | PauliString", "str | Self"): self.params[a.arg] = OBJ
+            elif txt == "int": self.params[a.arg] = Z
             else: bad(a, "parameter annotation %r" % txt)
         self.self_t = None
+        self.mutating = any(isinstance(t, (ast.Subscript, ast.Attribute)) and isinstance(getattr(t.value, "value", t.value), ast.Name)
+                            and getattr(t.value, "value", t.value).id == "self" and isinstance(t.ctx, ast.Store) for t in ast.walk(node))
+        if self.mutating:
+            self.vars["self"] = OBJ
+
+    FIELDS = {"bits": "obits", "bits_even": "oeven", "bits_odd": "oodd"}
+
+    def raise_text(self, o):
+        if getattr(self, "mutating", False):
+            if o == "Raised EIndex": return "Ret (FRaised EIndex, v_self)"
+            bad(self.node, "guard %s inside a mutating method" % o)
+        return o
+
+    def bit_value(self, e, env):
+        """a value stored into a bitarray: a bit, or the int literals 0 / 1"""
+        if isinstance(e, ast.Constant) and e.value in (0, 1) and not isinstance(e.value, bool):
+            return ("true" if e.value == 1 else "false"), []
+        c, t, g = self.expr(e, env)
+        if t != B: bad(e, "value stored into a bitarray must be a bit")
+        return c, g
+
+    def stmt_extra(self, s, rest, env, k):
+        if isinstance(s, ast.Assign) and len(s.targets) == 1:
+            tg = s.targets[0]
+            # x[idx] = v  where x is self.<field> or a local bitarray
+            if isinstance(tg, ast.Subscript):
+                ic, it_, ig = self.expr(tg.slice, env)
+                if it_ != Z: bad(s, "index must be int")
+                vc, vg = self.bit_value(s.value, env)     # Python evaluates the right-hand side first
+                if isinstance(tg.value, ast.Attribute) and isinstance(tg.value.value, ast.Name) and tg.value.value.id == "self" and tg.value.attr in self.FIELDS:
+                    if not self.mutating: bad(s, "assignment into self in a method not marked mutating")
+                    f = self.FIELDS[tg.value.attr]
+                    return self.guard(vg + ig + [("(idx_ok (%s v_self) %s)" % (f, ic), "Raised EIndex")],
+                                      "(let v_self := set_%s v_self (list_set (%s v_self) %s %s) in %s)" % (f, f, ic, vc, self.block(rest, env, k)))
+                if isinstance(tg.value, ast.Name) and tg.value.id in env and self.vars.get(tg.value.id) == BITS:
+                    x = tg.value.id
+                    return self.guard(vg + ig + [("(idx_ok v_%s %s)" % (x, ic), "Raised EIndex")],
+                                      "(let v_%s := (list_set v_%s %s %s) in %s)" % (x, x, ic, vc, self.block(rest, env, k)))
+                bad(s, "subscript assignment target")
+            # self.<field> = <bitarray expression>
+            if isinstance(tg, ast.Attribute) and isinstance(tg.value, ast.Name) and tg.value.id == "self" and tg.attr in self.FIELDS:
+                if not self.mutating: bad(s, "assignment into self in a method not marked mutating")
+                c, t, g = self.expr(s.value, env)
+                if t != BITS: bad(s, "field must be assigned a bitarray")
+                return self.guard(g, "(let v_self := set_%s v_self %s in %s)" % (self.FIELDS[tg.attr], c, self.block(rest, env, k)))
+        if isinstance(s, ast.Return) and self.mutating:
+            if s.value is None or (isinstance(s.value, ast.Constant) and s.value.value is None):
+                return "Ret (FNone, v_self)"
+            c, t, g = self.expr(s.value, env)
+            self.set_ret(t, s)
+            return self.guard(g, "Ret (FRet %s, v_self)" % c)
+        return ModFn.stmt_extra(self, s, rest, env, k)
+
+    def block(self, stmts, env, k):
+        if stmts and isinstance(stmts[0], ast.Return) and getattr(self, "mutating", False):
+            return self.stmt_extra(stmts[0], stmts[1:], env, k)
+        if stmts and isinstance(stmts[0], ast.Assign) and len(stmts[0].targets) == 1 and isinstance(stmts[0].targets[0], (ast.Subscript, ast.Attribute)):
+            x = self.stmt_extra(stmts[0], stmts[1:], env, k)
+            if x is not None:
+                return x
+        return ModFn.block(self, stmts, env, k)
 
     def field(self, e):
         if isinstance(e, ast.Attribute) and e.attr in ("bits", "bits_even", "bits_odd") and isinstance(e.value, ast.Name):
@@ -763,6 +836,22 @@ class PSFn(ModFn):
             c, t, g = self.expr(e.value, env)
             if t != OBJ: bad(e, "field of a non-PauliString")
             return "(%s %s)" % (f, c), BITS, g
+        if isinstance(e, ast.Subscript):
+            c, t, g = self.expr(e.value, env)
+            if t != BITS: bad(e, "subscript of a non-bitarray")
+            sl = e.slice
+            if isinstance(sl, ast.Slice):
+                shape = (ast.unparse(sl.lower) if sl.lower else None, ast.unparse(sl.upper) if sl.upper else None, ast.unparse(sl.step) if sl.step else None)
+                if shape == (None, None, "2"): return "(evens %s)" % c, BITS, g
+                if shape == ("1", None, "2"): return "(odds %s)" % c, BITS, g
+                bad(e, "slice other than [::2] and [1::2]")
+            ic, it_, ig = self.expr(sl, env)
+            if it_ != Z: bad(e, "index must be int")
+            return "(list_get false %s %s)" % (c, ic), B, g + ig + [("(idx_ok %s %s)" % (c, ic), "Raised EIndex")]
+        if isinstance(e, ast.Call) and isinstance(e.func, ast.Name) and e.func.id == "ba2int" and len(e.args) == 1 and not e.keywords:
+            c, t, g = self.expr(e.args[0], env)
+            if t != BITS: bad(e, "ba2int of a non-bitarray")
+            return "(ba2int %s)" % c, Z, g
         if isinstance(e, ast.Call):
             fn_ = e.func
             if isinstance(fn_, ast.Name) and fn_.id == "count_and" and len(e.args) == 2 and not e.keywords:
@@ -813,6 +902,8 @@ class PSFn(ModFn):
             return "(-%d)" % e.operand.value, Z, []
         if isinstance(e, ast.Compare) and len(e.ops) == 1 and isinstance(e.ops[0], ast.Eq):
             a, ta, ga = self.expr(e.left, env)
+            if ta == B and isinstance(e.comparators[0], ast.Constant) and e.comparators[0].value in (0, 1) and not isinstance(e.comparators[0].value, bool):
+                return (a if e.comparators[0].value == 1 else "(negb %s)" % a), B, ga      # a bit compared with 0 / 1
             if ta == BITS:
                 b, tb, gb = self.expr(e.comparators[0], env)
                 if tb != BITS: bad(e, "== of a bitarray with something else")
@@ -821,7 +912,7 @@ class PSFn(ModFn):
         return None
 
     def expr(self, e, env):
-        if isinstance(e, (ast.Compare, ast.UnaryOp, ast.Attribute)):
+        if isinstance(e, (ast.Compare, ast.UnaryOp, ast.Attribute, ast.Subscript)):
             x = self.expr_extra(e, env)
             if x is not None:
                 return x
@@ -837,7 +928,7 @@ class PSFn(ModFn):
             cs = [o]
             for a in e.args:
                 c, t, g = self.expr(a, scope)
-                if t != OBJ or g: bad(a, "argument of a method call must be a PauliString")
+                if g: bad(a, "argument of a method call must be unguarded")
                 cs.append(c)
             return " ".join(cs), fn
         return None
@@ -847,8 +938,29 @@ class PSFn(ModFn):
         return None if m is None or m[1].pure else m[1]
 
 
+    def emit(self):
+        if not self.mutating:
+            return ModFn.emit(self)
+        self.prepare()
+        body = self.node.body
+        ps = " ".join("(v_%s : %s)" % (n, coq_type(t)) for n, t in self.params.items())
+        env0 = {"self"}
+        self.block(body, env0, None)
+        term = self.block(body, env0, None)
+        rt = self.ret if self.ret is not None else OBJ       # a method that only falls through returns None
+        inits = "".join("let v_%s : %s := %s in " % (v, coq_type(t), default(t, self.tr.enums)) for v, t in self.vars.items() if v not in self.params)
+        return ("(* %s (mutates self), lines %d-%d; state = (%s); result = (returned value, self afterwards) *)\nDefinition %s %s : fres %s * obj :=\n  %s@finishM %s _ _ (fun %s => v_self) v_self (%s)." % (
+            self.name, self.node.lineno, self.node.end_lineno, ", ".join(self.vars), self.coq, ps, coq_type(rt), inits, self.state_type(), pat(self.state()), term))
+
+    def prepare(self):
+        ModFn.prepare(self)
+        if self.mutating:
+            self.pure = False
+
+
 class PSTranslator:
-    WANT = ["__len__", "__eq__", "sign", "complex_conj", "commutes_with", "multiply", "adjoint_map", "__or__", "__xor__", "__matmul__", "is_identity"]
+    WANT = ["__len__", "__eq__", "sign", "complex_conj", "commutes_with", "multiply", "adjoint_map", "__or__", "__xor__", "__matmul__", "is_identity",
+            "get_index", "get_diagonal_index", "tensor", "set_substring", "inc"]
     def __init__(self, repo):
         self.path = os.path.join(repo, "src", "paulie", "common", "pauli_string_bitarray.py")
         self.tree = ast.parse(open(self.path, newline=None, encoding="utf-8-sig").read())
@@ -866,7 +978,10 @@ class PSTranslator:
 
     def run(self):
         out = ["(* GENERATED by tools/py2coq.py from src/paulie/common/pauli_string_bitarray.py — do not edit *)",
-               "From PauLieRefine Require Import PySem.", "From PauLie Require Import Pauli PauliBits.", "Open Scope Z_scope.", ""]
+               "From PauLieRefine Require Import PySem.", "From PauLie Require Import Pauli PauliBits.", "Open Scope Z_scope.", "",
+               "Definition set_obits (o : obj) (b : list bool) : obj := {| obits := b; oeven := oeven o; oodd := oodd o |}.",
+               "Definition set_oeven (o : obj) (b : list bool) : obj := {| obits := obits o; oeven := b; oodd := oodd o |}.",
+               "Definition set_oodd (o : obj) (b : list bool) : obj := {| obits := obits o; oeven := oeven o; oodd := b |}.", ""]
         for name in self.WANT:
             node = self.defs.get(name)
             if node is None: raise Unsupported("PauliString.%s not found in the source" % name)
